@@ -2,7 +2,12 @@
 // sandbox's memory. Engine X: every address of [base-4096, base+size+4096), null, every address of
 // the other live instance (stride), stack / heap / code addresses; three entry points.
 static thread_local int g_abort_flag = 0;
-#define RLBOX_CUSTOM_ABORT(msg) (g_abort_flag = 1)
+#ifdef C02_EXC
+// aborts surface as exceptions: what a REFUSED call leaves behind is observable (the flag build carries on after the flag)
+#  define RLBOX_USE_EXCEPTIONS
+#else
+#  define RLBOX_CUSTOM_ABORT(msg) (g_abort_flag = 1)
+#endif
 #include "rlbox.hpp"
 #include "mbox.hpp"
 #include "vcommon.hpp"
@@ -111,6 +116,47 @@ static void function_pointers()
   }
 }
 
+#ifdef C02_EXC
+// a refused raw pointer must not have reached sandbox memory (or the tainted) by the time the refusal surfaces
+static void refused_leaves_nothing(uintptr_t a)
+{
+  const char* cls = cls_of(a);
+  bool inside = a >= g_base && a - g_base < kSize;
+  if (inside) return;
+  int* raw = reinterpret_cast<int*>(a);
+  char b[64];
+  snprintf(b, sizeof b, "%#lx", (unsigned long)a);
+  n_eval += 2;
+  n_nontriv += 2;
+  {
+    tn<int**> cell;
+    cell.assign_raw_pointer(*g_sb, reinterpret_cast<int**>(g_base + 0x100));
+    uint16_t before = 0xBEEF, after = 0;
+    memcpy(reinterpret_cast<void*>(g_base + 0x100), &before, 2);
+    bool threw = false;
+    try {
+      (*cell).assign_raw_pointer(*g_sb, raw);
+    } catch (const std::runtime_error&) {
+      threw = true;
+    }
+    memcpy(&after, reinterpret_cast<void*>(g_base + 0x100), 2);
+    if (threw && after != before)
+      viol(std::string("C02 mode=") + kMode + " entry=tainted_volatile::assign_raw_pointer class=" + cls + " kind=refused-address-stored", std::string("exc|") + b, std::string("the call was refused but the pointer cell in sandbox memory changed from 0xbeef to ") + std::to_string(after) + " (address " + b + ")");
+  }
+  {
+    tn<int*> t = nullptr;
+    bool threw = false;
+    try {
+      t.assign_raw_pointer(*g_sb, raw);
+    } catch (const std::runtime_error&) {
+      threw = true;
+    }
+    if (threw && t.UNSAFE_unverified() != nullptr)
+      viol(std::string("C02 mode=") + kMode + " entry=tainted::assign_raw_pointer class=" + cls + " kind=refused-address-stored", std::string("exc|") + b, std::string("the call was refused but the tainted holds the address (") + b + ")");
+  }
+}
+#endif
+
 int main(int argc, char** argv)
 {
   parse(argc, argv);
@@ -121,6 +167,22 @@ int main(int argc, char** argv)
   g_other = &other;
   g_base = sb.get_sandbox_impl()->base;
   g_obase = other.get_sandbox_impl()->base;
+#ifdef C02_EXC
+  {
+    int stackvar;
+    static int glob;
+    std::vector<uintptr_t> as = { g_base - 1, g_base - 4096, g_base + kSize, g_base + kSize + 8, g_obase, g_obase + 0x40, g_obase + kSize - 1, reinterpret_cast<uintptr_t>(&stackvar), reinterpret_cast<uintptr_t>(&glob), reinterpret_cast<uintptr_t>(&main), 1, 0xffff, (uintptr_t)(g_base + (1ull << 32)), (uintptr_t)(g_base + (1ull << 16)), ~(uintptr_t)0 };
+    if (g_args.replay) {
+      auto f = split(g_args.replay, '|');
+      as = { (uintptr_t)strtoull(f[1].c_str(), nullptr, 16) };
+    }
+    for (uintptr_t a : as) refused_leaves_nothing(a);
+    stat("evaluations", n_eval);
+    stat("nontrivial", n_nontriv);
+    finish();
+    return 0;
+  }
+#endif
   if (g_args.replay) {
     auto f = split(g_args.replay, '|');
     if (f[0] == "fn") function_pointers();
